@@ -1052,4 +1052,7 @@ func main() {
 		}
 	}
 	rec(nil)
+
+	// (D) the scanner against its translation (scan.go)
+	scannerCases(o, corpus)
 }
